@@ -404,6 +404,9 @@ impl Context {
             let mut nexts = Vec::new();
             for t in &children {
                 if t.state().is_completed() {
+                    // nothing to cancel here, but an open task may hang off it
+                    // (the act that follows a finished act of the same step)
+                    nexts.extend_from_slice(&t.children());
                     continue;
                 }
                 t.set_state(TaskState::Cancelled);
